@@ -2,8 +2,9 @@
  * comparison-only float logic; NaN keys excluded). Column HP_P is a ghost tag column carrying the row id. */
 #include "lsv.h"
 #include "matrix.h"
+#define MM (HP_M > 0 ? HP_M : 1)      /* HP_M 0: a matrix without rows must be returned unchanged (and the call must return) */
 void harness(void){
-  matrix *m; NewMatrix(&m, HP_M, HP_P+1); double orig[HP_M][HP_P+1];
+  matrix *m; NewMatrix(&m, HP_M, HP_P+1); double orig[MM][HP_P+1];
   for(size_t i=0;i<HP_M;i++){ for(size_t j=0;j<HP_P;j++){ double v=in_any_double(); ASSUME(v==v); m->data[i][j]=v; orig[i][j]=v; } m->data[i][HP_P]=(double)i; orig[i][HP_P]=(double)i; }
   size_t key=in_size(0,HP_P-1);
 #if HP_REVERSE
@@ -12,7 +13,7 @@ void harness(void){
   MatrixSort(m, key);
 #endif
   CHECK(m->row==HP_M && m->col==HP_P+1, "shape unchanged");
-  int seen[HP_M]; for(size_t i=0;i<HP_M;i++) seen[i]=0;
+  int seen[MM]; for(size_t i=0;i<HP_M;i++) seen[i]=0;
   for(size_t i=0;i<HP_M;i++){
     double tag=m->data[i][HP_P]; CHECK(tag>=0 && tag<HP_M, "tag in range"); size_t o=(size_t)tag; CHECK((double)o==tag, "tag integral");
     CHECK(!seen[o], "each original row appears once"); seen[o]=1;
